@@ -931,7 +931,7 @@ def post_grad_dims(cases, rust, model):
     fails = []
     n = 0
     for i, (c, r) in enumerate(zip(cases, rust)):
-        if "grads" not in c or any(o == "panic" for o in r):
+        if "grads" not in c or any(o in ("panic", "timeout") for o in r):
             continue
         for key in ("grads", "grads2"):
             for leaf, gi in c.get(key, {}).items():
@@ -1146,7 +1146,7 @@ def post_log_once(cases, rust, model):
     fails = []
     n = 0
     for i, (c, r) in enumerate(zip(cases, rust)):
-        if "log_at" not in c or any(o == "panic" for o in r):
+        if "log_at" not in c or any(o in ("panic", "timeout") for o in r):
             continue
         log = [it for it in r[c["log_at"]] if it[0] == 6]
         tags = [it[1][0] for it in log]
@@ -1241,7 +1241,7 @@ def post_linearity(cases, rust, model):
     for g, roles in groups.items():
         if not all(k in roles for k in ("s1", "s2", "comb", "none", "ones")):
             continue
-        if any(any(o == "panic" for o in rust[i]) for i in roles.values()):
+        if any(any(o in ("panic", "timeout") for o in rust[i]) for i in roles.values()):
             continue
         c = cases[roles["comb"]]
         alpha, beta = c["coeffs"]
